@@ -351,11 +351,11 @@ type simCase struct {
 	report  bool
 }
 
-func mkMachine(n, m uint8) *procbuilder.Machine {
+func mkMachine(n, m, rbits uint8) *procbuilder.Machine {
 	mc := new(procbuilder.Machine)
 	mc.Arch.Rsize = 8
 	mc.Arch.Modes = []string{"ha"}
-	mc.Arch.N, mc.Arch.M, mc.Arch.R, mc.Arch.O, mc.Arch.L = n, m, 2, 2, 0
+	mc.Arch.N, mc.Arch.M, mc.Arch.R, mc.Arch.O, mc.Arch.L = n, m, rbits, 2, 0
 	mc.Arch.Op = []procbuilder.Opcode{procbuilder.J{}, procbuilder.Nop{}}
 	p, err := mc.Arch.Assembler([]byte("nop\n"))
 	if err != nil {
@@ -365,35 +365,118 @@ func mkMachine(n, m uint8) *procbuilder.Machine {
 	return mc
 }
 
-// machines whose processors are inert (one nop, then halted): only rules and the bond fabric move data
+var machineNames = []string{"wirep", "proc", "fan", "asym", "wide", "noin", "multi"}
+
+// machines whose processors are inert (one nop, then halted): only rules and the bond fabric move
+// data.  The shapes differ on purpose: processors with as many, fewer and more outputs than inputs,
+// without inputs, several processors of different shapes, a machine without inputs.
 func buildMachine(name string) *bondmachine.Bondmachine {
 	bm := new(bondmachine.Bondmachine)
 	bm.Rsize = 8
 	bm.Init()
-	for i := 0; i < 2; i++ {
-		bm.Add_input()
-		bm.Add_output()
+	io := func(nin, nout int) {
+		for i := 0; i < nin; i++ {
+			bm.Add_input()
+		}
+		for i := 0; i < nout; i++ {
+			bm.Add_output()
+		}
 	}
+	proc := func(n, m, rbits uint8) {
+		bm.Domains = append(bm.Domains, mkMachine(n, m, rbits))
+		bm.Add_processor(len(bm.Domains) - 1)
+	}
+	bond := func(a, b string) { bm.Add_bond([]string{a, b}) }
 	switch name {
 	case "wirep": // i0->o0, i1->o1, one unconnected idle processor
-		bm.Domains = append(bm.Domains, mkMachine(0, 0))
-		bm.Add_processor(0)
-		bm.Add_bond([]string{"i0", "o0"})
-		bm.Add_bond([]string{"i1", "o1"})
+		io(2, 2)
+		proc(0, 0, 2)
+		bond("i0", "o0")
+		bond("i1", "o1")
 	case "proc": // i0->p0i0, p0o0->o0, i1->o1
-		bm.Domains = append(bm.Domains, mkMachine(1, 1))
-		bm.Add_processor(0)
-		bm.Add_bond([]string{"i0", "p0i0"})
-		bm.Add_bond([]string{"p0o0", "o0"})
-		bm.Add_bond([]string{"i1", "o1"})
+		io(2, 2)
+		proc(1, 1, 2)
+		bond("i0", "p0i0")
+		bond("p0o0", "o0")
+		bond("i1", "o1")
 	case "fan": // i0 feeds o0 and o1 (fan-out), i1 unconnected, processor output p0o0 unconnected
-		bm.Domains = append(bm.Domains, mkMachine(1, 1))
-		bm.Add_processor(0)
-		bm.Add_bond([]string{"i0", "o0"})
-		bm.Add_bond([]string{"i0", "o1"})
-		bm.Add_bond([]string{"i1", "p0i0"})
+		io(2, 2)
+		proc(1, 1, 2)
+		bond("i0", "o0")
+		bond("i0", "o1")
+		bond("i1", "p0i0")
+	case "asym": // more outputs than inputs: i0->o0 (a wire, so that o0 can become valid), i1->p0i0, p0o1->o1 (p0o0 unconnected)
+		io(2, 2)
+		proc(1, 2, 2)
+		bond("i0", "o0")
+		bond("i1", "p0i0")
+		bond("p0o1", "o1")
+	case "wide": // more inputs than outputs: i0->p0i0, i1->p0i1, p0o0->o0 (o1 unconnected), 2 registers
+		io(2, 2)
+		proc(2, 1, 1)
+		bond("i0", "p0i0")
+		bond("i1", "p0i1")
+		bond("p0o0", "o0")
+	case "noin": // no machine inputs, processor without inputs: p0o0->o0, p0o1->o1
+		io(0, 2)
+		proc(0, 2, 1)
+		bond("p0o0", "o0")
+		bond("p0o1", "o1")
+	case "multi": // two processors of different shapes: p0 (0 in, 3 out, 2 regs), p1 (2 in, 1 out, 4 regs)
+		io(1, 2)
+		proc(0, 3, 1)
+		proc(2, 1, 2)
+		bond("p0o0", "p1i0")
+		bond("i0", "p1i1")
+		bond("p0o2", "o0")
+		bond("p1o0", "o1")
 	}
 	return bm
+}
+
+// every element GetElementLocation can name on a machine (shared objects have no mnemonic there)
+type machInfo struct {
+	ins, outs, pins, pouts, regs []string // all valid names per kind
+	bonds                        []string // names of the internal inputs and outputs (what *_all covers)
+	maxima                       []string // the name with the largest valid index of every kind (per processor)
+	over                         []string // the first name past the end of every kind
+}
+
+var infoCache = map[string]machInfo{}
+
+func infoOf(name string) machInfo {
+	if mi, ok := infoCache[name]; ok {
+		return mi
+	}
+	bm := buildMachine(name)
+	var mi machInfo
+	rng := func(prefix string, n int, dst *[]string) {
+		for k := 0; k < n; k++ {
+			*dst = append(*dst, prefix+strconv.Itoa(k))
+		}
+		if n > 0 {
+			mi.maxima = append(mi.maxima, prefix+strconv.Itoa(n-1))
+		}
+		mi.over = append(mi.over, prefix+strconv.Itoa(n))
+	}
+	rng("i", bm.Inputs, &mi.ins)
+	rng("o", bm.Outputs, &mi.outs)
+	for pi, d := range bm.Processors {
+		a := bm.Domains[d].Arch
+		pp := "p" + strconv.Itoa(pi)
+		rng(pp+"i", int(a.N), &mi.pins)
+		rng(pp+"o", int(a.M), &mi.pouts)
+		rng(pp+"r", 1<<a.R, &mi.regs)
+	}
+	mi.over = append(mi.over, "p"+strconv.Itoa(len(bm.Processors))+"r0", "p"+strconv.Itoa(len(bm.Processors))+"o0")
+	for _, b := range bm.Internal_inputs {
+		mi.bonds = append(mi.bonds, b.String())
+	}
+	for _, b := range bm.Internal_outputs {
+		mi.bonds = append(mi.bonds, b.String())
+	}
+	infoCache[name] = mi
+	return mi
 }
 
 func machineLine(bm *bondmachine.Bondmachine) string {
@@ -576,16 +659,21 @@ func runCLI(bm *bondmachine.Bondmachine, sb *simbox.Simbox, c simCase, cli, dir 
 	return
 }
 
-var simObjs = map[string][]string{
-	"wirep": {"i0", "i1", "o0", "o1", "p0r0", "p0r1", "p0r3", "i01"},
-	"proc":  {"i0", "i1", "o0", "o1", "p0r0", "p0r2", "p0o0", "p0i0", "i00"},
-	"fan":   {"i0", "i1", "o0", "o1", "p0r1", "p0o0", "p0i0"},
-}
-
 func genSim(r *common.Rng) simCase {
-	c := simCase{machine: []string{"wirep", "proc", "fan", "wirep"}[r.Intn(4)], ticks: 5 + r.Intn(8), stop: -1}
-	objs := simObjs[c.machine]
-	io := []string{"i0", "i1", "o0", "o1"}
+	c := simCase{machine: machineNames[r.Intn(len(machineNames))], ticks: 5 + r.Intn(8), stop: -1}
+	mi := infoOf(c.machine)
+	// every nameable element, the maximal index of every kind twice as likely, and a spelling with a leading zero
+	objs := append(append(append(append(append([]string{}, mi.ins...), mi.outs...), mi.pins...), mi.pouts...), mi.regs...)
+	objs = append(append(objs, mi.maxima...), mi.maxima...)
+	if len(mi.ins) > 0 {
+		objs = append(objs, "i0"+strconv.Itoa(len(mi.ins)-1))
+	}
+	io := append(append([]string{}, mi.ins...), mi.outs...)
+	// what a set rule has to write for data to move: the machine inputs, else the processor outputs
+	drive := mi.ins
+	if len(drive) == 0 {
+		drive = mi.pouts
+	}
 	tk := func() string {
 		switch r.Intn(8) {
 		case 0:
@@ -630,13 +718,7 @@ func genSim(r *common.Rng) simCase {
 	// in every format
 	bulkScenario := func() {
 		fm := func() string { return []string{"unsigned", "hex", "bin", ""}[r.Intn(4)] }
-		covered := append([]string{}, io...)
-		switch c.machine {
-		case "proc":
-			covered = append(covered, "p0i0", "p0o0")
-		case "fan":
-			covered = append(covered, "p0i0")
-		}
+		covered := append([]string{}, mi.bonds...)
 		opt := []string{"get_all", "get_all_internal", "show_all", "show_all_internal", "get_all", "show_all",
 			"get_ticks", "show_ticks", "show_io_pre", "show_io_post"}[r.Intn(10)]
 		mode := 1 + r.Intn(2)
@@ -648,14 +730,14 @@ func genSim(r *common.Rng) simCase {
 			addM("config:"+opt+":"+f1, mode)
 		}
 		if strings.HasSuffix(opt, "_internal") {
-			covered = append(covered, "p0r0", "p0r1", "p0r3")
+			covered = append(covered, mi.regs...)
 		}
 		act := "show"
 		if strings.HasPrefix(opt, "get") {
 			act = "get"
 			forceReport = true
 		}
-		addM("absolute:"+[]string{"0", "1"}[r.Intn(2)]+":set:"+pick(r, []string{"i0", "i1"})+":200", 2)
+		addM("absolute:"+[]string{"0", "1"}[r.Intn(2)]+":set:"+pick(r, drive)+":200", 2)
 		for k := 1 + r.Intn(3); k > 0; k-- {
 			f2 := fm()
 			if f2 == f1 {
@@ -676,15 +758,12 @@ func genSim(r *common.Rng) simCase {
 	// slot of a watched element and the slot of its valid signal differ; inputs are set so that
 	// valid edges happen, and the loop is stopped on a valid output so that on-exit fires
 	eventScenario := func() {
-		evObjs := append([]string{}, io...)
-		if c.machine != "wirep" {
-			evObjs = append(evObjs, "p0i0")
-		}
+		evObjs := append(append(append([]string{}, io...), mi.pins...), mi.pouts...)
 		fm := func() string { return []string{":unsigned", ":hex", ":bin", "", ""}[r.Intn(5)] }
 		for k := 2 + r.Intn(4); k > 0; k-- {
 			switch r.Intn(7) {
 			case 0, 1:
-				addM("onvalid:show:"+pick(r, io)+fm(), 2*r.Intn(2)*r.Intn(2))
+				addM("onvalid:show:"+pick(r, append(io, mi.pouts...))+fm(), 2*r.Intn(2)*r.Intn(2))
 			case 2:
 				addM("onvalid:get:"+pick(r, io)+fm(), 2)
 			case 3, 4:
@@ -695,9 +774,9 @@ func genSim(r *common.Rng) simCase {
 				addM(pick(r, []string{"absolute:" + tk(), "relative:" + per()})+":show:"+pick(r, objs)+":"+ty(), 2)
 			}
 		}
-		addM("absolute:"+[]string{"0", "1", "2"}[r.Intn(3)]+":set:"+pick(r, []string{"i0", "i1"})+":"+val(), 2)
+		addM("absolute:"+[]string{"0", "1", "2"}[r.Intn(3)]+":set:"+pick(r, drive)+":"+val(), 2)
 		if r.Chance(1, 2) {
-			addM("absolute:"+tk()+":set:"+pick(r, []string{"i0", "i1"})+":"+val(), 2)
+			addM("absolute:"+tk()+":set:"+pick(r, drive)+":"+val(), 2)
 		}
 		if r.Chance(2, 3) {
 			c.stop = r.Intn(2)
@@ -726,7 +805,7 @@ func genSim(r *common.Rng) simCase {
 		case k < 16:
 			add("relative:" + per() + ":get:" + pick(r, objs) + ":" + ty())
 		case k < 18:
-			add("onvalid:show:" + pick(r, append(io, "p0r0", "zz")) + ":" + ty())
+			add("onvalid:show:" + pick(r, append(append(append([]string{}, io...), mi.pouts...), "p0r0", "zz")) + ":" + ty())
 		case k < 19:
 			add("onexit:show:" + pick(r, objs) + ":" + ty())
 			if c.stop < 0 {
@@ -740,7 +819,11 @@ func genSim(r *common.Rng) simCase {
 			add("absolute:" + tk() + ":show:" + pick(r, io))
 		default:
 			// rarely: rules the simulator rejects or dies on
-			switch r.Intn(12) {
+			switch r.Intn(15) {
+			case 12: // the first index past the end of some kind: timed rules abort the start ...
+				add("absolute:" + tk() + ":" + pick(r, []string{"set", "show", "get"}) + ":" + pick(r, mi.over) + ":5")
+			case 13, 14: // ... event rules on it are dropped
+				add(pick(r, []string{"onvalid:show:", "onexit:show:", "onexit:get:"}) + pick(r, mi.over))
 			case 0:
 				add("absolute:1:set:zz:5")
 			case 1:
@@ -814,6 +897,31 @@ func fixedSims() []simCase {
 		mk("wirep", 4, -1, true, "config:get_ticks", "!config:get_all:unsigned", "absolute:1:get:i0:hex"),
 		mk("wirep", 4, -1, true, "!config:get_all:hex", "config:get_all:bin", "absolute:0:set:i1:200"),
 		mk("wirep", 4, -1, true, "!config:show_ticks", "!config:show_io_pre", "!config:show_io_post", "absolute:1:set:i0:5", "relative:1:get:o0:unsigned"),
+		// every element kind at its largest valid index, directly and through the bulk rules, on machines whose
+		// processors have more outputs than inputs, more inputs than outputs, no inputs, and on two unequal processors
+		mk("asym", 6, 1, true, "absolute:1:set:p0o1:200", "absolute:1:set:p0o0:17", "absolute:2:show:p0o1:hex", "absolute:2:get:p0o1:unsigned",
+			"relative:2:show:p0r3:unsigned", "absolute:1:set:i1:5", "absolute:3:show:p0i0:bin", "onexit:show:p0o1", "onvalid:show:p0o1"),
+		mk("asym", 5, -1, true, "config:get_all:hex", "absolute:1:set:p0o1:200", "absolute:1:set:i0:9"),
+		mk("asym", 5, -1, true, "config:get_all_internal:unsigned", "config:show_all_internal:hex", "absolute:1:set:p0o1:200", "absolute:2:show:p0o1:unsigned"),
+		mk("asym", 5, -1, false, "config:show_all:bin", "absolute:0:set:p0o1:200", "relative:2:show:p0o1:unsigned", "relative:2:show:o1:unsigned"),
+		mk("wide", 6, 0, true, "absolute:1:set:i1:200", "absolute:1:set:p0o0:17", "absolute:2:show:p0i1:hex", "absolute:2:get:p0i1:unsigned",
+			"relative:2:show:p0r1:unsigned", "absolute:1:set:p0r1:9", "config:get_all_internal:unsigned", "onexit:show:p0i1"),
+		mk("wide", 5, -1, false, "config:show_all_internal:hex", "absolute:1:set:i1:200", "absolute:2:show:p0i1:unsigned", "absolute:2:show:p0o0:unsigned"),
+		mk("noin", 6, -1, true, "absolute:1:set:p0o1:200", "absolute:2:set:p0o0:17", "relative:1:show:o1:unsigned", "relative:1:get:p0o1:hex",
+			"config:get_all:unsigned", "absolute:3:show:p0r1:bin", "absolute:3:set:p0r1:255"),
+		mk("multi", 7, -1, true, "absolute:1:set:p0o2:200", "absolute:1:set:p0o0:17", "absolute:2:set:i0:9", "relative:1:show:o0:unsigned", "relative:1:show:p1i0:hex",
+			"absolute:3:get:p0o2:unsigned", "absolute:3:get:p1i1:unsigned", "absolute:3:show:p1r3:unsigned", "absolute:2:set:p1r3:5", "absolute:3:show:p0r1:unsigned",
+			"absolute:2:set:p1o0:33", "config:get_all_internal:hex"),
+		mk("multi", 5, -1, false, "config:show_all:unsigned", "absolute:0:set:p0o2:200", "relative:2:show:p0o2:hex", "relative:2:show:p0o1:unsigned", "onexit:show:p1o0", "onvalid:show:p0o2"),
+		// the largest processor output reached only through the bulk rules / the event rules
+		mk("asym", 5, -1, true, "config:get_all:unsigned", "absolute:1:set:i0:9"),
+		mk("asym", 5, -1, false, "config:show_all_internal:hex", "absolute:1:set:i0:9", "relative:2:show:o1:unsigned"),
+		mk("asym", 8, 0, false, "absolute:1:set:i0:9", "onexit:show:p0o1", "onexit:show:o0:hex"),
+		mk("multi", 5, -1, true, "config:get_all_internal:unsigned", "absolute:1:set:i0:9"),
+		mk("noin", 4, -1, true, "config:get_all:hex"),
+		mk("asym", 4, -1, false, "absolute:1:show:p0o2:unsigned"),
+		mk("wide", 4, -1, false, "absolute:1:set:p0o1:5"),
+		mk("multi", 4, -1, true, "onexit:show:p0o3", "onvalid:show:p2o0", "onexit:get:p1i2", "absolute:1:get:p1o0:unsigned"),
 		// event rules in short form, and on-valid rules whose element slot differs from the slot of its valid signal
 		mk("wirep", 8, 0, false, "absolute:2:set:i0:5", "onexit:show:o0"),
 		mk("wirep", 8, 0, true, "absolute:2:set:i0:5", "onexit:show:i0", "onvalid:show:o0", "onexit:get:o1", "onvalid:get:i0"),
